@@ -78,21 +78,21 @@ func verifYield(site string) {
 
 // VerifKCPState is a copy of the core's scalar state and queue occupancies.
 type VerifKCPState struct {
-	Conv, Mtu, Mss, State                  uint32
-	SndUna, SndNxt, RcvNxt                 uint32
-	Ssthresh                               uint32
-	RxRttvar, RxSrtt                       int32
-	RxRto, RxMinrto                        uint32
-	SndWnd, RcvWnd, RmtWnd, Cwnd, Incr     uint32
-	Probe, TsProbe, ProbeWait              uint32
-	Interval, TsFlush, Nodelay, Updated    uint32
-	DeadLink                               uint32
-	Fastresend, Nocwnd, Stream             int32
-	SndQueue, RcvQueue, SndBuf, RcvBuf     int
-	AckList                                int
-	SndBufUnacked                          int
-	MaxXmit                                uint32
-	PeekSize                               int
+	Conv, Mtu, Mss, State               uint32
+	SndUna, SndNxt, RcvNxt              uint32
+	Ssthresh                            uint32
+	RxRttvar, RxSrtt                    int32
+	RxRto, RxMinrto                     uint32
+	SndWnd, RcvWnd, RmtWnd, Cwnd, Incr  uint32
+	Probe, TsProbe, ProbeWait           uint32
+	Interval, TsFlush, Nodelay, Updated uint32
+	DeadLink                            uint32
+	Fastresend, Nocwnd, Stream          int32
+	SndQueue, RcvQueue, SndBuf, RcvBuf  int
+	AckList                             int
+	SndBufUnacked                       int
+	MaxXmit                             uint32
+	PeekSize                            int
 }
 
 // VerifState snapshots the core. The caller must hold whatever lock protects it.
